@@ -49,6 +49,8 @@ MIN_COUNTERS = {
               'blocks_compared': 100_000, 'object_allocs_judged': 10_000,
               'object_none_answers_judged': 500, 'node_ids_judged': 50_000,
               'node_id_wraps': 200, 'default_group_checks': 50,
+              'object_histories_reported_max_logins_differs': 500,
+              'outside_partition_frees': 5000, 'object_outside_partition_frees': 300,
               'model_selftest': 1},
     'thorough': {'allocs_judged': 5_000_000, 'none_answers_judged': 500_000,
                  'none_answers_offset_zero': 100_000,
@@ -57,6 +59,9 @@ MIN_COUNTERS = {
                  'blocks_compared': 5_000_000, 'object_allocs_judged': 250_000,
                  'object_none_answers_judged': 10_000, 'node_ids_judged': 1_000_000,
                  'node_id_wraps': 2500, 'default_group_checks': 1000,
+                 'object_histories_reported_max_logins_differs': 20_000,
+                 'outside_partition_frees': 200_000,
+                 'object_outside_partition_frees': 10_000,
                  'model_selftest': 1},
 }
 
@@ -134,6 +139,7 @@ class Stats:
     def __init__(self):
         self.allocs = self.nones = self.frees = self.coalescing = 0
         self.dfrees = self.ufrees = self.blocks = 0
+        self.ofrees = self.ofree_index_errors = 0
         self.alloc_after_coalescing = False
         self._pending = False
 
@@ -193,6 +199,7 @@ def run_direct(spec, acc):
         bad = None
         for k in range(length):
             name = rng.choices(names, weights)[0]
+            outside = False
             if name in ('free', 'dfree') and not (model.live if name == 'free'
                                                   else freed):
                 name = 'alloc'
@@ -234,15 +241,32 @@ def run_direct(spec, acc):
                             freed.append(addr)
                         else:
                             st.ufrees += 1
+                        if rng.random() < 0.3:
+                            # an address that belongs to no one in this
+                            # partition (hardware bus, another client's
+                            # number): must leave the live set unchanged
+                            lo = max(0, offset - size - 3)
+                            cands = list(range(lo, offset)) + \
+                                list(range(offset + size, offset + size + 3))
+                            addr = rng.choice(cands)
+                            outside = True
+                            st.ofrees += 1
                     else:
                         addr = None
                     ops.append(('free', addr))
-                    real.free(addr)
+                    try:
+                        real.free(addr)
+                    except IndexError:
+                        if not outside:
+                            raise
+                        st.ofree_index_errors += 1   # refused loudly: state intact
                     model.free(addr)
                 v = model.judge_blocks((b.start, b.size) for b in real.blocks())
                 st.blocks += 1
                 if not v:
                     bad = (k, f'{ops[-1][0]}/{v.mech}', v.detail)
+                    if outside:
+                        bad = bad + ('address-outside-partition',)
                     break
             except Exception as e:
                 bad = (k, f'{ops[-1][0]}/raises/{_site_key(e)}', short_tb(e))
@@ -254,8 +278,9 @@ def run_direct(spec, acc):
             acc.sample({'case': i, 'size': size, 'reserved': reserved,
                         'client': cid, 'offset': offset, 'ops': ops})
         if bad:
-            k, mech, detail = bad
-            acc.violation(f'C16/{mech}/{_offset_class(offset)}',
+            k, mech, detail = bad[:3]
+            cls = bad[3] if len(bad) > 3 else _offset_class(offset)
+            acc.violation(f'C16/{mech}/{cls}',
                           {'case': i, 'surface': 'ContiguousBlockAllocator',
                            'size': size, 'reserved': reserved, 'client': cid,
                            'offset': offset, 'op_index': k, 'why': detail,
@@ -268,6 +293,9 @@ def _count(acc, st, offset, prefix):
     acc.count(prefix + 'frees_judged', st.frees)
     acc.count(prefix + 'double_frees', st.dfrees)
     acc.count(prefix + 'unknown_frees', st.ufrees)
+    acc.count(prefix + 'outside_partition_frees', st.ofrees)
+    acc.count(prefix + 'outside_partition_frees_refused_with_IndexError',
+              st.ofree_index_errors)
     acc.count(prefix + 'coalescing_frees', st.coalescing)
     acc.count(prefix + 'blocks_compared', st.blocks)
     if offset:
@@ -311,8 +339,22 @@ def gen_server_config(rng):
     for k in ('control', 'audio', 'buffer'):
         key = 'reserved_' + ('buffers' if k == 'buffer' else k + '_buses')
         opts[key] = min(opts[key], per - 1)
-    cid = rng.randrange(ml)
-    return ml, opts, cid
+    # the login reply of the server (/done /notify clientID maxLogins) may
+    # report another max_logins than the local option (remote server, server
+    # booted elsewhere with another -l): every partition follows the REPORTED
+    # value; the local option only has to admit the assigned client id
+    reported = ml
+    if rng.random() < 0.5:
+        reported = rng.choice([r for r in (1, 2, 3, 4, 6, 8, 16)
+                               if r != ml and r <= per * ml // 2] or [ml])
+    per_r = min(opts['control_buses'], opts['buffers'],
+                opts['audio_buses'] - inch - outch) // reported
+    for key in ('reserved_control_buses', 'reserved_audio_buses', 'reserved_buffers'):
+        opts[key] = max(0, min(opts[key], per_r - 1))
+    cid = rng.randrange(min(ml, reported))
+    if reported != ml and rng.random() < 0.6:
+        cid = min(ml, reported) - 1          # the last admissible client
+    return ml, opts, cid, reported
 
 
 def run_objects(spec, acc):
@@ -327,24 +369,29 @@ def run_objects(spec, acc):
 
     for i in iter_cases(spec):
         rng = case_rng(spec['seed'], 'C16', 'objects', i)
-        ml, opts, cid = gen_server_config(rng)
+        ml, opts, cid, reported = gen_server_config(rng)
         main.reset()
         main._m_rgen.seed(rng.getrandbits(48))
         for k, v in opts.items():
             setattr(srv.options, k, v)
         srv.options.max_logins = ml
         try:
-            srv._set_client_id(cid)
+            # the way the library receives a login: the status watcher's
+            # handler of the /done /notify reply (stores the reported
+            # max_logins, then sets the client id and rebuilds the allocators)
+            srv._status_watcher._handle_login_done(cid, reported)
         except Exception as e:
             acc.violation(f'C16/objects/new-allocators-raise/{_site_key(e)}',
-                          {'case': i, 'max_logins': ml, 'options': opts,
-                           'client': cid, 'tb': short_tb(e)})
+                          {'case': i, 'max_logins': ml, 'reported': reported,
+                           'options': opts, 'client': cid, 'tb': short_tb(e)})
             acc.case(h64((ml, opts, cid)), nontrivial=False)
             continue
-        if srv.client_id != cid or srv._status_watcher.max_logins != ml:
+        if srv.client_id != cid or srv._status_watcher.max_logins != reported:
             acc.mark_inconclusive('could not configure client id / max_logins')
             return
-        lay = _layout(opts, ml, cid)
+        if reported != ml:
+            acc.count('object_histories_reported_max_logins_differs')
+        lay = _layout(opts, reported, cid)
         models = {k: BitmapModel(*v) for k, v in lay.items()}
         stats = {k: Stats() for k in lay}
         allocators = {'control': srv._control_bus_allocator,
@@ -361,6 +408,29 @@ def run_objects(spec, acc):
         for k in range(length):
             r = rng.random() * (prof['alloc'] + prof['free'] + prof['dfree'])
             kind = None
+            if rng.random() < 0.05:
+                # a bus object made for a number outside this client's
+                # partition (hardware channel, another client's bus) and then
+                # freed: nothing of this client's may be released by that
+                kd = rng.choice(['audio', 'control'])
+                below = lay[kd][2]
+                if below > 0:
+                    idx = rng.randrange(max(0, below - lay[kd][0] - 2), below)
+                    cls_ = AudioBus if kd == 'audio' else ControlBus
+                    ops.append((kd + '-foreign-free', idx))
+                    stats[kd].ofrees += 1
+                    try:
+                        cls_(1, srv, idx).free()
+                    except IndexError:
+                        stats[kd].ofree_index_errors += 1
+                    v = models[kd].judge_blocks(
+                        (b.start, b.size) for b in allocators[kd].blocks())
+                    if not v:
+                        bad = (k, f'free/{v.mech}', f'{kd}: {v.detail}',
+                               'address-outside-partition')
+                        kind = kd
+                        break
+                    continue
             try:
                 if r < prof['alloc'] or not live:
                     kind = rng.choice(['control', 'audio', 'buffer', 'buffer'])
@@ -444,7 +514,7 @@ def run_objects(spec, acc):
                 break
         nontriv = any(s.coalescing > 0 and s.alloc_after_coalescing
                       for s in stats.values())
-        acc.case(h64((ml, sorted(opts.items()), cid, ops)), nontrivial=nontriv)
+        acc.case(h64((ml, reported, sorted(opts.items()), cid, ops)), nontrivial=nontriv)
         for kd, s in stats.items():
             _count(acc, s, lay[kd][2], prefix='object_')
             acc.count(f'object_allocs_{kd}', s.allocs)
@@ -452,14 +522,23 @@ def run_objects(spec, acc):
         if cid:
             acc.count('object_histories_client_nonzero')
         if acc.want_sample() and 5 <= len(ops) <= 12 and nontriv:
-            acc.sample({'case': i, 'max_logins': ml, 'client': cid,
+            acc.sample({'case': i, 'max_logins': ml, 'reported_max_logins': reported,
+                        'client': cid,
                         'options': opts, 'ops': ops})
         if bad:
-            k, mech, detail = bad
+            k, mech, detail = bad[:3]
             off = lay[kind][2] if kind in lay else 0
-            acc.violation(f'C16/{mech}/{_offset_class(off)}',
+            cls = bad[3] if len(bad) > 3 else _offset_class(off)
+            if reported != ml and mech.startswith(('alloc/range-leaves-partition',
+                                                   'alloc/no-space-but')):
+                # class of input: the server reported another max_logins than
+                # the local option; partitions must follow the reported one
+                mech = '/'.join(mech.split('/')[:2])
+                cls = 'reported-max-logins-differs'
+            acc.violation(f'C16/{mech}/{cls}',
                           {'case': i, 'surface': f'{kind} constructor',
-                           'max_logins': ml, 'client': cid, 'options': opts,
+                           'max_logins': ml, 'reported_max_logins': reported,
+                           'client': cid, 'options': opts,
                            'partition(size,reserved,offset)': lay.get(kind),
                            'op_index': k, 'why': detail, 'ops': ops[-40:]})
 
